@@ -1612,4 +1612,43 @@ theorem ranges_legacy_eq (s : Stack) (pages : List Page) :
     · simp
   · split <;> rfl
 
+
+/-! ## Programs -/
+
+/-- Any program of indexing operations (frame slices and integers, `crop_by_pixels`, index tuples, time-like slices), of
+    any length, run on a stack the code builds ends — if no operation raises — in a stack that again satisfies the
+    hypotheses of all theorems of this file: they apply at every step of every program. -/
+theorem good_runOps (H W : Nat) (pages : List Page) : ∀ (ops : List Op) (s s' : Stack), s.Good H W pages →
+    Stack.runOps pages s ops = some (.ok s') → s'.Good H W pages
+  | [], s, s', hg, h => by
+    simp only [Stack.runOps, Option.some.injEq, Except.ok.injEq] at h
+    rw [← h]; exact hg
+  | op :: rest, s, s', hg, h => by
+    unfold Stack.runOps at h
+    cases ha : s.applyOp pages op with
+    | none => rw [ha] at h; cases h
+    | some r =>
+      rw [ha] at h
+      cases r with
+      | error e => simp only at h; cases h
+      | ok t =>
+        simp only at h
+        have ht : t.Good H W pages := by
+          obtain ⟨h1, h2, h3, h4, _⟩ := good_preserved s t H W pages hg
+          cases op with
+          | frame f => exact h1 f (by simpa [Stack.applyOp] using ha)
+          | crop x0 x1 y0 y1 => exact h2 x0 x1 y0 y1 (by simpa [Stack.applyOp] using ha)
+          | tuple items => exact h3 items (by simpa [Stack.applyOp] using ha)
+          | time a b c => exact h4 a b c (by simpa [Stack.applyOp] using ha)
+        exact good_runOps H W pages rest t s' ht h
+
+/-- Non-vacuity: `stack[1::2][:, :-1, 1:4]["0.1s":]` on six pages 0.1 s apart. -/
+example : Stack.runOps
+    [⟨1600000000000000000, 1600000000100000000, 1600000000040000000⟩, ⟨1600000000100000000, 1600000000200000000, 1600000000140000000⟩,
+     ⟨1600000000200000000, 1600000000300000000, 1600000000240000000⟩, ⟨1600000000300000000, 1600000000400000000, 1600000000340000000⟩,
+     ⟨1600000000400000000, 1600000000500000000, 1600000000440000000⟩, ⟨1600000000500000000, 1600000000600000000, 1600000000540000000⟩]
+    ⟨0, 6, 1, ⟨0, 5, 0, 4⟩⟩
+    [.frame (.slice (some 1) none (some 2)), .tuple [.slice none none none, .slice none (some (-1)) none, .slice (some 1) (some 4) none],
+     .time (.rel 100000000) .none none] = some (.ok ⟨3, 7, 2, ⟨1, 4, 0, 3⟩⟩) := by decide
+
 end Verif.C07
